@@ -249,7 +249,7 @@ Lemma create_issued x r :
         s_response := sr;
         s_assertion := sa |}.
 Proof.
-  unfold create, create_with. fold (choose_name_id x). destruct (choose_name_id x) as [[nm src]|]; [|discriminate].
+  unfold create, create_with, create_clocked; cbn [read]. fold (choose_name_id x). destruct (choose_name_id x) as [[nm src]|]; [|discriminate].
   destruct (signatures x) as [[sr sa]|]; [|discriminate].
   intros E; inversion E; subst. exists nm, src, sr, sa. repeat split; reflexivity.
 Qed.
@@ -313,7 +313,7 @@ Qed.
 (* ------------------------------------------------------------ refusals *)
 Lemma refusal_holds x e : create x = Error e -> refusal_ok x e.
 Proof.
-  unfold create, create_with. fold (choose_name_id x). destruct (choose_name_id x) as [[nm src]|] eqn:Ec.
+  unfold create, create_with, create_clocked; cbn [read]. fold (choose_name_id x). destruct (choose_name_id x) as [[nm src]|] eqn:Ec.
   - destruct (signatures x) as [[sr sa]|] eqn:Es; [discriminate|]. intros E; inversion E; subst. unfold refusal_ok.
     unfold signatures in Es. cbv zeta in Es. unfold want_sign_response in Es.
     destruct table_defaults as (Dr & _). rewrite Dr, resolve_demanded in Es.
@@ -474,14 +474,14 @@ Definition witness_f1 : input :=
                a_nidpolicy := Some {| p_format := None; p_spnq := Some "urn:example:affiliation:1" |};
                a_name_id := None; a_authn := a_authn base_args; a_issuer := None; a_sign_response := None;
                a_sign_assertion := None; a_sign_alg := None; a_digest_alg := None; a_policy := None; a_farg := None |};
-     ra := None; stored := []; now := 1700000000 |}.
+     ra := None; stored := []; now := 1700000000; zone := 0 |}.
 
 (* C09-F2: an earlier (transient) identifier of the user is re-used although the policy says persistent *)
 Definition witness_f2 : input :=
   {| cfg := base_cfg persistent_for_sp; arg := base_args; ra := None;
      stored := [ {| n_format := Some NAMEID_FORMAT_TRANSIENT; n_spnq := Some "https://sp.example.org/sp.xml";
                     n_nq := Some "https://idp.example.org/idp.xml" |} ];
-     now := 1700000000 |}.
+     now := 1700000000; zone := 0 |}.
 
 Lemma refuted_by w o : spec_b w o = false -> (forall x o, spec_b x o = true <-> spec x o) -> ~ spec w o.
 Proof. intros Hb Hr Hs. apply Hr in Hs. congruence. Qed.
@@ -751,13 +751,76 @@ Definition example_sp : spside :=
      sp_specs := [C04.Model.EP "https://sp.example.org/acs/post" "urn:oasis:names:tc:SAML:2.0:bindings:HTTP-POST"];
      sp_binding := "urn:oasis:names:tc:SAML:2.0:bindings:HTTP-POST";
      sp_wr := C01.Model.Unset; sp_wa := C01.Model.Unset; sp_wor := C01.Model.Unset; sp_atd := None;
-     sp_allow_unsolicited := false; sp_outstanding := [("req-1", "/came/from")]; sp_now := 1700000060 |}.
+     sp_allow_unsolicited := false; sp_outstanding := [("req-1", "/came/from")]; sp_now := 1700000060; sp_zone := 0 |}.
 
 Definition example_in : input :=
-  {| cfg := base_cfg []; arg := base_args; ra := None; stored := []; now := 1700000000 |}.
+  {| cfg := base_cfg []; arg := base_args; ra := None; stored := []; now := 1700000000; zone := 0 |}.
 
 Example e2e_hypotheses_satisfiable :
   exists r, create example_in = Issued r
             /\ e2e_hyp_b example_in example_sp r = Some "/came/from"
             /\ sp_accepts example_sp r = Some ([("mail", ["a@example.org"])], 1700003600%Z, Some "/came/from").
 Proof. eexists. split; [vm_compute; reflexivity|split; vm_compute; reflexivity]. Qed.
+
+(* ------------------------------------------------------------ the process time zone *)
+(* the code as it is takes UTC readings only: neither the issued Response, nor the property, nor the acceptance
+   models depend on the time zone of the issuing or the receiving process *)
+Lemma zone_irrelevant z x : create (in_zone z x) = create x.
+Proof. reflexivity. Qed.
+
+Lemma spec_zone_free z x o : spec (in_zone z x) o = spec x o.
+Proof. reflexivity. Qed.
+
+Lemma spec_b_zone_free z x o : spec_b (in_zone z x) o = spec_b x o.
+Proof. reflexivity. Qed.
+
+Lemma sp_zone_irrelevant z s r : sp_accepts (sp_in_zone z s) r = sp_accepts s r.
+Proof. reflexivity. Qed.
+
+Lemma e2e_zone_free z z' x s r so : e2e_b (in_zone z x) (sp_in_zone z' s) r so = e2e_b x s r so.
+Proof. reflexivity. Qed.
+
+Lemma create_read_utc x : create_read UtcReading UtcReading x = create x.
+Proof. reflexivity. Qed.
+
+Lemma not_on_or_after_shift t d pol sp ra :
+  not_on_or_after (t + d) pol sp ra = (not_on_or_after t pol sp ra + d)%Z.
+Proof. unfold not_on_or_after, in_a_while. lia. Qed.
+
+(* the property is sharp in this dimension: a provider that takes the wall clock of its time zone for the issue
+   time or for the expiry (and prints it as UTC) breaks the scope clause on EVERY call it answers, as soon as the
+   zone is not UTC *)
+Lemma wall_clock_refuted ic ec x r :
+  (ic, ec) <> (UtcReading, UtcReading) -> zone x <> 0%Z ->
+  create_read ic ec x = Issued r -> ~ scope x r.
+Proof.
+  intros Hk Hz H S.
+  unfold create_read, create_clocked in H.
+  destruct (choose_name_id_with _ _ x) as [[nm src]|]; [|discriminate].
+  destruct (signatures x) as [[sr sa]|]; [|discriminate].
+  inversion H; subst r; clear H.
+  unfold scope in S; cbn in S.
+  destruct S as (_ & _ & _ & _ & _ & _ & _ & _ & Hi & _ & He & _).
+  destruct ic.
+  - destruct ec; [congruence|].
+    destruct (He _ (applicable_total _ _ _)) as [He1 _].
+    cbn [read] in He1. rewrite not_on_or_after_shift in He1.
+    rewrite (nooa_spec x) in He1. lia.
+  - cbn [read] in Hi. lia.
+Qed.
+
+(* and the other way round: in a process whose zone IS UTC the two readings coincide *)
+Lemma wall_clock_same_at_utc ic ec x : zone x = 0%Z -> create_read ic ec x = create x.
+Proof.
+  intros Hz. unfold create, create_with, create_read, create_clocked.
+  assert (R : forall k, read k x = now x) by (intros [|]; cbn [read]; lia).
+  rewrite !R. reflexivity.
+Qed.
+
+(* non-vacuity: a provider nine hours ahead of UTC that answers (the seeded change utcnow() -> now() in
+   time_util.time_in_a_while is create_read UtcReading WallReading) *)
+Example wall_clock_example :
+  exists r, create_read UtcReading WallReading (in_zone 32400 example_in) = Issued r
+            /\ i_not_before r = 1700000000%Z /\ i_nooa_cond r = (1700000000 + 32400 + 3600)%Z
+            /\ spec_b (in_zone 32400 example_in) (Issued r) = false.
+Proof. eexists. split; [vm_compute; reflexivity|repeat split; vm_compute; reflexivity]. Qed.
